@@ -150,25 +150,36 @@ def scan_forbidden():
 
 
 AUDIT_TMPL = """import Lean
-import Pendulum.Props.{pid}
+{imports}
 open Lean Elab Command
 run_cmd do
   let env ← getEnv
-  let some idx := env.getModuleIdx? `Pendulum.Props.{pid} | throwError "module not found"
-  for n in env.header.moduleData[idx.toNat]!.constNames do
-    if n.isInternalDetail then continue
-    match env.find? n with
-    | some (.thmInfo _) =>
-      let axs ← Lean.collectAxioms n
-      logInfo m!"AXIOMS {{n}} :: {{axs.toList}}"
-    | _ => pure ()
+  for m in [{mods}] do
+    let some idx := env.getModuleIdx? m | throwError "module not found"
+    for n in env.header.moduleData[idx.toNat]!.constNames do
+      if n.isInternalDetail then continue
+      match env.find? n with
+      | some (.thmInfo _) =>
+        let axs ← Lean.collectAxioms n
+        logInfo m!"AXIOMS {{n}} :: {{axs.toList}}"
+      | _ => pure ()
 """
+
+
+def prop_modules(pid: str):
+    """the Lean modules holding the property theorems of `pid`: Props/Cxx.lean (theorems about the hand model) and, where present,
+    Props/Cxx_Ties.lean (generated definition = hand model)"""
+    mods = [f"Pendulum.Props.{pid}"]
+    if (LEAN / "Pendulum" / "Props" / f"{pid}_Ties.lean").exists():
+        mods.append(f"Pendulum.Props.{pid}_Ties")
+    return mods
 
 
 def lean_check(pid: str, extra_targets=()):
     """Build the property module and the driver, then audit axioms.
     Returns dict(build_ok, log, theorems={name:[axioms]}, bad=[names], forbidden=[...])."""
-    targets = [f"Pendulum.Props.{pid}", "driver"] + list(extra_targets)
+    mods = prop_modules(pid)
+    targets = mods + ["driver"] + list(extra_targets)
     t0 = time.time()
     rc, log = lake(["build"] + targets)
     res = dict(build_ok=(rc == 0), log=log[-6000:], theorems={}, bad=[], forbidden=scan_forbidden(),
@@ -180,7 +191,7 @@ def lean_check(pid: str, extra_targets=()):
             res["log"] = (res["log"] + "\n" + "\n".join(n[:400] for n in notes[:8]))[-6000:]
         return res
     audit = CACHE / f"Audit_{pid}.lean"
-    audit.write_text(AUDIT_TMPL.format(pid=pid))
+    audit.write_text(AUDIT_TMPL.format(imports="\n".join("import " + m for m in mods), mods=", ".join("`" + m for m in mods)))
     with Lock("lake"):
         p = subprocess.run(["lake", "env", "lean", str(audit)], cwd=LEAN, capture_output=True, text=True)
     out = p.stdout + p.stderr
